@@ -67,7 +67,7 @@ Definition seq_lit (f i l : nat) : fm :=
 Definition seq_lits (f i0 : nat) : list fm :=
   flat_map (fun i => map (seq_lit f i) (seq 0 (nlevels fb f))) (seq i0 (T fb - i0)).
 
-Lemma seq_loop_unroll f : f < nf fb -> forall fuel i,
+Lemma seq_loop_unroll f : isact fb f = true -> forall fuel i,
   T fb - i < fuel -> seq_loop fb fuel f (nlevels fb f) 1 0 i = COk (seq_lits f i).
 Proof.
   intros Hf. induction fuel as [|fuel IH]; intros i Hfu; [lia|].
@@ -109,14 +109,14 @@ Proof.
     rewrite eval_seq_lit, (H t l Ht Hl). apply eqb_reflx.
 Qed.
 
-Lemma apply_sequential_eq f fresh : f < nf fb ->
+Lemma apply_sequential_eq f fresh : isact fb f = true ->
   apply_constraint fb (FSequential f) fresh =
   let '(cls, fresh') := cnf_fn (seq_lits f 0) fresh in
   COk {| ct_fresh := fresh'; ct_clauses := cls; ct_requests := [] |}.
 Proof.
   intros Hf. cbn [apply_constraint]. unfold apply_sequential.
   rewrite fps_zero, (f1_sustain fb (in_f1_facts fb HF1) f). cbn [cbind].
-  pose proof (f1_nlevels_pos fb HF1 f Hf) as Hn.
+  pose proof (f1_nlevels_pos fb HF1 f (f1_act_lt fb HF1 f Hf)) as Hn.
   replace (nlevels fb f =? 0) with false by (symmetry; apply Nat.eqb_neq; lia).
   replace (1 =? 0) with false by reflexivity. cbn [orb]. rewrite andb_false_r.
   rewrite (seq_loop_unroll f Hf (S (T fb)) 0 ltac:(lia)). cbn [cbind]. reflexivity.
@@ -128,7 +128,7 @@ Lemma step_sequential f :
   forall fresh ct, (GZ < fresh)%Z -> apply_constraint fb (FSequential f) fresh = COk ct ->
   exists ext, DefinesA (fresh - 1) (ct_fresh ct - 1) (ct_clauses ct) (ct_requests ct) ext (Psequential f).
 Proof.
-  intros Hc fresh ct Hfr E. cbn [constraint_f1] in Hc. apply Nat.ltb_lt in Hc. fold (nf fb) in Hc.
+  intros Hc fresh ct Hfr E. cbn [constraint_f1] in Hc.
   rewrite (apply_sequential_eq f fresh Hc) in E.
   destruct (cnf_fn (seq_lits f 0) fresh) as [cls fresh'] eqn:Ecnf. inversion E. subst ct. clear E.
   cbn [ct_fresh ct_clauses ct_requests].
@@ -145,7 +145,7 @@ Qed.
 Lemma sequential_total f fresh :
   constraint_f1 fb (FSequential f) = true -> exists ct, apply_constraint fb (FSequential f) fresh = COk ct.
 Proof.
-  intros Hc. cbn [constraint_f1] in Hc. apply Nat.ltb_lt in Hc. fold (nf fb) in Hc.
+  intros Hc. cbn [constraint_f1] in Hc.
   rewrite (apply_sequential_eq f fresh Hc).
   destruct (cnf_fn (seq_lits f 0) fresh) as [cls fresh']. eauto.
 Qed.
@@ -162,8 +162,8 @@ Theorem sequential_sem s q f :
   onehot fb s q -> constraint_f1 fb (FSequential f) = true ->
   (Psequential f s <-> forallb (constraint_ok (code_sem fb) q) (code_constraint fb (FSequential f)) = true).
 Proof.
-  intros (Hq & Hr & Hcell & Hbit) Hc. cbn [constraint_f1] in Hc. apply Nat.ltb_lt in Hc. fold (nf fb) in Hc.
-  pose proof (f1_nlevels_pos fb HF1 f Hc) as Hn.
+  intros (Hq & Hr & Hcell & Hbit & _) Hc. cbn [constraint_f1] in Hc.
+  pose proof (f1_act_lt fb HF1 f Hc) as Hcn. pose proof (f1_nlevels_pos fb HF1 f Hcn) as Hn.
   cbn [code_constraint forallb]. rewrite andb_true_r.
   unfold constraint_ok, mk_c. cbn [k_kind k_factor k_level k_windows].
   rewrite code_nlevels, pre_of_zero, (f1_sustain fb (in_f1_facts fb HF1) f).
@@ -172,7 +172,7 @@ Proof.
   - intros H t Ht. apply in_seq in Ht.
     replace (t <? 0) with false by (symmetry; apply Nat.ltb_ge; lia).
     rewrite Nat.sub_0_r, Nat.div_1_r.
-    destruct (Hcell t f ltac:(lia) Hc) as (l0 & Hl0 & E0). unfold get_cell in E0. rewrite E0.
+    destruct (Hcell t f ltac:(lia) Hcn) as (l0 & Hl0 & E0). unfold get_cell in E0. rewrite E0.
     cbn [cell_eqb].
     pose proof (Nat.mod_upper_bound t (nlevels fb f) ltac:(lia)) as Hm.
     pose proof (H t (t mod nlevels fb f) ltac:(lia) Hm) as Hb.
@@ -182,7 +182,7 @@ Proof.
     replace (t <? 0) with false in H by (symmetry; apply Nat.ltb_ge; lia).
     rewrite Nat.sub_0_r, Nat.div_1_r in H.
     rewrite (Hbit t f l Ht Hc Hl). unfold get_cell.
-    destruct (Hcell t f Ht Hc) as (l0 & Hl0 & E0). unfold get_cell in E0. rewrite E0 in H |- *.
+    destruct (Hcell t f Ht Hcn) as (l0 & Hl0 & E0). unfold get_cell in E0. rewrite E0 in H |- *.
     cbn [cell_eqb] in H. apply Nat.eqb_eq in H. rewrite is_level_some, H. apply Nat.eqb_sym.
 Qed.
 
